@@ -315,6 +315,7 @@ ThreadPool::Snapshot ThreadPool::snapshot() const
 void ThreadPool::threadProc(ThreadToken thread_token)
 {
     bool let_main_loop_join_me = false;
+    std::thread *self_thread = nullptr;
 
     LogDbg("thread %u start", thread_token.id());
 
@@ -329,6 +330,14 @@ void ThreadPool::threadProc(ThreadToken thread_token)
             if ((d_->idle_thread_num >= d_->undo_tasks_cabinet.size()) && (d_->threads_cabinet.size() > d_->min_thread_num)) {
                 LogDbg("thread %u will exit, no more work.", thread_token.id());
                 let_main_loop_join_me = true;
+                //! 必须在作出退出决定的同一个临界区内把自己从 threads_cabinet 取出：
+                //! 否则 execute() 仍把本线程算作可用线程而不再创建新线程，新任务将无人执行；
+                //! 多个线程也可能同时决定退出，使线程数低于 min_thread_num
+                self_thread = d_->threads_cabinet.free(thread_token);
+                if (self_thread != nullptr) {
+                    std::lock_guard<std::mutex> lg(d_->exiting_threads->lock);
+                    d_->exiting_threads->threads.push_back(self_thread);
+                }
                 break;
             }
 
@@ -391,17 +400,10 @@ void ThreadPool::threadProc(ThreadToken thread_token)
     LogDbg("thread %u exit", thread_token.id());
 
     if (let_main_loop_join_me) {
-        //! 则将线程取出来，交给main_loop去join()，然后delete
-        std::unique_lock<std::mutex> lk(d_->lock);
-
-        auto t = d_->threads_cabinet.free(thread_token);
-        //! 为空说明 cleanup() 已经把本线程对象取走并会负责 join()，这里不能再委托
+        //! 将线程对象交给main_loop去join()，然后delete
+        auto t = self_thread;
         if (t != nullptr) {
             auto exiting = d_->exiting_threads;
-            {
-                std::lock_guard<std::mutex> lg(exiting->lock);
-                exiting->threads.push_back(t);
-            }
             d_->wp_loop->runInLoop(
                 [exiting, t]{
                     {
